@@ -553,12 +553,7 @@ func selectorTruthTable(p *Prog, r *Report, rule string) {
 		r.Undecided(rule, "model.FilterData.SelectorMatch|shape", p.Pos(fn.Pos()), "the item field look-up is not inside a loop over the selector fields")
 		return
 	}
-	var start *ssa.BasicBlock
-	for _, s := range header.Succs {
-		if s != header && header.Dominates(s) && blockReaches(s, header) {
-			start = s
-		}
-	}
+	start := loopBodyStart(header)
 	if start == nil {
 		r.Undecided(rule, "model.FilterData.SelectorMatch|shape", p.Pos(fn.Pos()), "loop body not found")
 		return
@@ -998,4 +993,31 @@ func deleteStageTable(p *Prog, r *Report, rule string) {
 		}
 	}
 	r.Check(rule, name+"|table", nOK > 0, p.Pos(stage.Pos()), fmt.Sprintf("%d assignments of %v behave as required", nOK, names))
+}
+
+// loopBodyStart: the first block of an iteration. In the usual shape the header
+// tests the loop condition and one of its successors leaves the loop: the
+// iteration starts at the other one. In a rotated loop (range over an integer:
+// the condition is tested at the bottom) the header is itself the first block of
+// the body.
+func loopBodyStart(header *ssa.BasicBlock) *ssa.BasicBlock {
+	leaves := false
+	var in *ssa.BasicBlock
+	for _, s := range header.Succs {
+		if s == header {
+			continue
+		}
+		if header.Dominates(s) && blockReaches(s, header) {
+			in = s
+		} else {
+			leaves = true
+		}
+	}
+	if leaves {
+		return in
+	}
+	if len(header.Succs) > 0 {
+		return header
+	}
+	return nil
 }
